@@ -195,8 +195,8 @@ pub(crate) fn structural(proto: &crate::verif::net::Proto, data: &[u8]) -> Vec<M
     let mut out = vec![];
     match proto {
         Proto::LightClient => {
-            let msg = match packed::LightClientMessage::from_slice(data) {
-                Ok(m) => m,
+            let msg = match packed::LightClientMessageReader::from_compatible_slice(data) {
+                Ok(m) => m.to_entity(),
                 Err(_) => return out,
             };
             let wrap = |u: packed::LightClientMessageUnion| {
@@ -323,6 +323,109 @@ pub(crate) fn structural(proto: &crate::verif::net::Proto, data: &[u8]) -> Vec<M
                     }
                 }
                 _ => {}
+            }
+            // V1 extra fields (blocks_uncles_hash, blocks_extension)
+            let item = msg.to_enum();
+            if let packed::LightClientMessageUnion::SendBlocksProof(m) = &item {
+                if m.count_extra_fields() >= 2 {
+                    let v1 = packed::SendBlocksProofV1::new_unchecked(m.as_bytes());
+                    let wrap1 = |v: packed::SendBlocksProofV1| {
+                        wrap(packed::SendBlocksProof::new_unchecked(v.as_bytes()).into())
+                    };
+                    let uncles: Vec<_> = v1.blocks_uncles_hash().into_iter().collect();
+                    for (name, v) in vec_variants(&uncles) {
+                        out.push(Mutant {
+                            label: format!("v1.blocks_uncles_hash:{}", name),
+                            data: wrap1(v1.clone().as_builder().blocks_uncles_hash(v.pack()).build()),
+                        });
+                    }
+                    let exts: Vec<packed::BytesOpt> = v1.blocks_extension().into_iter().collect();
+                    for (name, v) in vec_variants(&exts) {
+                        out.push(Mutant {
+                            label: format!("v1.blocks_extension:{}", name),
+                            data: wrap1(
+                                v1.clone()
+                                    .as_builder()
+                                    .blocks_extension(packed::BytesOptVec::new_builder().set(v).build())
+                                    .build(),
+                            ),
+                        });
+                    }
+                    // every extension: none / other bytes
+                    for i in 0..exts.len() {
+                        for (name, val) in [
+                            ("none", packed::BytesOpt::default()),
+                            (
+                                "other",
+                                Pack::<packed::BytesOpt>::pack(&Some(Bytes::from(vec![7u8; 32]).pack())),
+                            ),
+                        ] {
+                            let mut v = exts.clone();
+                            v[i] = val;
+                            out.push(Mutant {
+                                label: format!("v1.blocks_extension[*]:={}", name),
+                                data: wrap1(
+                                    v1.clone()
+                                        .as_builder()
+                                        .blocks_extension(packed::BytesOptVec::new_builder().set(v).build())
+                                        .build(),
+                                ),
+                            });
+                        }
+                    }
+                    // strip the V1 fields (V1 -> V0 downgrade)
+                    out.push(Mutant {
+                        label: "v1:strip-extra-fields".to_owned(),
+                        data: wrap(
+                            packed::SendBlocksProof::new_builder()
+                                .last_header(v1.last_header())
+                                .proof(v1.proof())
+                                .headers(v1.headers())
+                                .missing_block_hashes(v1.missing_block_hashes())
+                                .build()
+                                .into(),
+                        ),
+                    });
+                }
+            }
+            if let packed::LightClientMessageUnion::SendTransactionsProof(m) = &item {
+                if m.count_extra_fields() >= 2 {
+                    let v1 = packed::SendTransactionsProofV1::new_unchecked(m.as_bytes());
+                    let wrap1 = |v: packed::SendTransactionsProofV1| {
+                        wrap(packed::SendTransactionsProof::new_unchecked(v.as_bytes()).into())
+                    };
+                    let uncles: Vec<_> = v1.blocks_uncles_hash().into_iter().collect();
+                    for (name, v) in vec_variants(&uncles) {
+                        out.push(Mutant {
+                            label: format!("v1.blocks_uncles_hash:{}", name),
+                            data: wrap1(v1.clone().as_builder().blocks_uncles_hash(v.pack()).build()),
+                        });
+                    }
+                    let exts: Vec<packed::BytesOpt> = v1.blocks_extension().into_iter().collect();
+                    for (name, v) in vec_variants(&exts) {
+                        out.push(Mutant {
+                            label: format!("v1.blocks_extension:{}", name),
+                            data: wrap1(
+                                v1.clone()
+                                    .as_builder()
+                                    .blocks_extension(packed::BytesOptVec::new_builder().set(v).build())
+                                    .build(),
+                            ),
+                        });
+                    }
+                    out.push(Mutant {
+                        label: "v1:strip-extra-fields".to_owned(),
+                        data: wrap(
+                            packed::SendTransactionsProof::new_builder()
+                                .last_header(v1.last_header())
+                                .proof(v1.proof())
+                                .filtered_blocks(v1.filtered_blocks())
+                                .missing_tx_hashes(v1.missing_tx_hashes())
+                                .build()
+                                .into(),
+                        ),
+                    });
+                }
             }
         }
         Proto::Filter => {
